@@ -120,12 +120,14 @@ def apply_transforms(plan, repo, hdir):
                 "use crate::verif_shim::BTreeMap;\n",
                 "use crate::verif_shim::BTreeSet;\n",
             ]
+            old.append("        keys.sort_unstable_by_key(|&k| k as u32);\n")
+            new.append("        crate::verif_shim::sort_keys_unsigned(keys);\n")
             for o, n in zip(old, new):
                 if s.count(o) != 1:
                     raise Inconclusive("source transform snapshot_btree_shim: line %r not found exactly once" % o)
                 s = s.replace(o, n)
             open(p, "w").write(s)
-            done.append("snapshot/src/snap.rs: std::collections::{btree_map,BTreeMap,BTreeSet} -> crate::verif_shim (array model), scratch copy only")
+            done.append("snapshot/src/snap.rs: std::collections::{btree_map,BTreeMap,BTreeSet} -> crate::verif_shim (sorted array model, capacity 4) and keys.sort_unstable_by_key(|&k| k as u32) -> crate::verif_shim::sort_keys_unsigned (insertion sort); scratch copy only")
         else:
             raise Inconclusive("unknown transform " + t)
     return done
@@ -462,7 +464,11 @@ def replay_native(h, repo, hdir, tdir, logdir, pid, res):
                 except subprocess.TimeoutExpired:
                     rc = -9
             out = open(lp2, errors="replace").read()
-            failed = bool(re.search(r"test result: FAILED", out)) and rc != 0
+            panics = re.findall(r"panicked at ([^\n]*)\n([^\n]*)", out)
+            # a panic inside Kani's playback machinery ("Not enough det vals found") means the run left
+            # the path of the counterexample: that is not a reproduction
+            infra = any("concrete_playback.rs" in loc for loc, _ in panics)
+            failed = bool(re.search(r"test result: FAILED", out)) and rc != 0 and bool(panics) and not infra
             outs.append({"profile": "release" if profile else "dev", "test": t, "rc": rc, "test_failed": failed,
                          "panic": re.findall(r"panicked at [^\n]*\n[^\n]*", out)[:3]})
             if failed:
